@@ -5,11 +5,15 @@ the mutated file.  Phase 1 (filter) works in a scratch worktree; phase 2 applies
 /repo, runs the checks and reverts.  Usage: mutate.py filter <n> <seed> | mutate.py eval"""
 import os, re, sys, random, subprocess, json
 WT = "/tmp/wt_mut"; OUT = "/tmp/mut"
-TARGETS = [("src/util/Jones.h", ["C04"]), ("src/util/Quaternion.h", ["C03", "C09", "C10"]), ("src/util/Pauli.h", ["C02", "C03"]), ("src/util/Estimate.h", ["C11", "C12"]),
-           ("src/util/Matrix.h", ["C13", "C14"]), ("src/util/Vector.h", ["C13", "C16"]), ("src/util/Minkowski.h", ["C15"]), ("src/util/Jacobi.h", ["C10"]),
-           ("src/util/Stokes.h", ["C02", "C16"]), ("src/util/Basis.h", ["C14", "C02"]), ("src/util/BoxMuller.C", ["C18"]), ("src/util/Conventions.C", ["C19"]),
-           ("src/mode.cpp", ["C01"]), ("src/mode.h", ["C01", "C06"]), ("src/sample.cpp", ["C06"]), ("src/modulated.h", ["C07"]), ("src/covariant.cpp", ["C08"]),
-           ("src/square_modulated_mode.cpp", ["C07"]), ("src/epsic.cpp", ["C17"])]
+TARGETS = [("src/util/Jones.h", ["C16", "C20", "C04", "C19"]), ("src/util/Quaternion.h", ["C16", "C03", "C09", "C10"]), ("src/util/Pauli.h", ["C15", "C03", "C09", "C02"]),
+           ("src/util/Estimate.h", ["C11", "C12", "C16", "C20", "C19"]), ("src/util/Matrix.h", ["C14", "C13", "C10"]), ("src/util/Vector.h", ["C16", "C20", "C11", "C19", "C13"]),
+           ("src/util/Minkowski.h", ["C15", "C01"]), ("src/util/Jacobi.h", ["C10"]), ("src/util/Stokes.h", ["C18", "C16", "C11", "C02"]), ("src/util/Basis.h", ["C14", "C02"]),
+           ("src/util/BoxMuller.C", ["C18"]), ("src/util/random.C", ["C18"]), ("src/util/Conventions.C", ["C19"]), ("src/util/Spinor.h", ["C16", "C01", "C02"]), ("src/util/Traits.h", ["C04", "C13"]),
+           ("src/util/complex_math.h", ["C20"]), ("src/util/Dirac.C", ["C13"]), ("src/util/Pauli.C", ["C02"]),
+           ("src/mode.cpp", ["C01"]), ("src/mode.h", ["C01", "C06"]), ("src/sample.cpp", ["C06"]), ("src/sample.h", ["C06", "C17"]), ("src/smoothed.h", ["C17", "C06"]), ("src/modulated.h", ["C08", "C07", "C06"]),
+           ("src/covariant.cpp", ["C08"]), ("src/square_modulated_mode.cpp", ["C07"]), ("src/epsic.cpp", ["C17"]),
+           ("src/superposed.cpp", ["C05"]), ("src/composite.cpp", ["C05"]), ("src/disjoint.cpp", ["C05"]), ("src/coherent.cpp", ["C05"])]
+MAXLINE = {"src/epsic.cpp": 380}     # below: the simulation loop and its running statistics, which no property observes
 OPS = [(r" \+ ", " - "), (r" - ", " + "), (r" \* ", " / "), (r" < ", " <= "), (r" <= ", " < "), (r" > ", " >= "), (r" >= ", " > "), (r" == ", " != "), (r" != ", " == "),
        (r"\+=", "-="), (r"-=", "+="), (r"\*=", "/="), (r"\b0\.5\b", "0.25"), (r"\b2\.0\b", "1.0"), (r"\b1\.0\b", "2.0"), (r"\[0\]", "[1]"), (r"\[1\]", "[0]"), (r"\[i\]\[j\]", "[j][i]"),
        (r"\bs1\b", "s2"), (r"\bs2\b", "s3"), (r"\bj01\b", "j10"), (r"\bj10\b", "j01"), (r"\.real\(\)", ".imag()"), (r"\bi<", "i<="), (r"\+\+", "--"), (r"\bconj\b", ""), (r"-1\.0", "1.0"), (r"\bsin\b", "cos")]
@@ -28,6 +32,7 @@ def candidates(path):
             continue
         if not st or st.startswith("//") or st.startswith("#") or st.startswith("*") or "cerr" in st or "throw" in st or "include" in st: continue
         code = line.split("//")[0]
+        if ln + 1 > MAXLINE.get(path, 10**9): continue
         for oi, (pat, rep) in enumerate(OPS):
             for m in re.finditer(pat, code):
                 c.append((ln, m.start(), m.end(), oi))
@@ -62,14 +67,15 @@ def main():
     elif mode == "eval":
         res = []
         for f in sorted(os.listdir(OUT)):
-            if not f.endswith(".diff"): continue
+            if not f.endswith(".diff") or (len(sys.argv) > 2 and f < sys.argv[2]): continue
             meta = json.load(open(os.path.join(OUT, f[:-5] + ".json")))
             rc, out = sh(["git", "-C", "/repo", "apply", os.path.join(OUT, f)])
             if rc != 0: print(f, "does not apply"); continue
             det = {}
             for pid in meta["props"]:
                 rc, out = sh(["./check", pid], cwd="/verif", timeout=3600)
-                det[pid] = ("VIOLATION" in out, "no-failing-input-found" in out and "VIOLATION" in out and out.count("VIOLATION") == out.count("no-failing-input-found"))
+                det[pid] = ("VIOLATION" in out, "VIOLATION" in out and out.count("VIOLATION") == out.count("no-failing-input-found"))
+                if det[pid][0]: break
             sh(["git", "-C", "/repo", "checkout", "--", "."])
             meta["detected"] = det; res.append(meta)
             print(f, meta["file"], meta["line"], meta["op"], "|", meta["text"][:80], "|", det, flush=True)
